@@ -10,14 +10,20 @@ from simkit import hw
 from models.regfile import RegFile, RegSpec, expand_csr_ops
 
 
-def build_map(config):
-    """Returns (memory_map, placed) where placed = [(MockReg, start, end, width, access)]."""
+def build_map(config, after=None):
+    """Returns (memory_map, placed, skipped) where placed = [(MockReg, start, end, width, access)].
+    `after(memory_map)` is called once the first len(regs) - config["late"] registers are in the
+    map: a multiplexer may be constructed on a map that is still being filled."""
     from amaranth_soc.memory import MemoryMap
     mm = hw.construct(MemoryMap, addr_width=config["aw"], data_width=config["dw"],
                       alignment=config["al"])
     placed = []
     skipped = 0
+    cut = len(config["regs"]) - int(config.get("late") or 0)
     for i, r in enumerate(config["regs"]):
+        if i == cut and after is not None:
+            after(mm)
+            after = None
         reg = hw.MockReg(r["w"], r["acc"])
         kw = {}
         if r.get("align") is not None:
@@ -30,6 +36,8 @@ def build_map(config):
             skipped += 1
             continue
         placed.append((reg, s, e, r["w"], r["acc"]))
+    if after is not None:
+        after(mm)
     return mm, placed, skipped
 
 
@@ -40,7 +48,7 @@ class MuxWorld(World):
     stub_components = ("register back-ends (bare csr.Element ports driven by a seeded agent)",
                        "CSR initiator (seeded open-loop agent)")
     fault_kinds = ("abort", "gap", "rw_same_cycle", "unmapped_access", "byzantine_raw",
-                   "nonconforming_access")
+                   "nonconforming_access", "registers_added_after_multiplexer_was_constructed")
     assumptions = (
         "Amaranth's Python RTL simulator executes the elaborated netlist faithfully",
         "protocol conformance is decided by the tracker in models/regfile.py from the property "
@@ -90,7 +98,8 @@ class MuxWorld(World):
         ov2 = rng.choice([x for x in [None, 0, 1, 2, 3] if x != ov])
         mode = rng.wchoice([("proto", 5), ("mixed", 3), ("raw", 2)])
         return {"dw": dw, "aw": aw, "al": al, "regs": regs, "ov": ov, "ov2": ov2, "mode": mode,
-                "hwseed": rng.bits(32)}
+                "hwseed": rng.bits(32),
+                "late": rng.range(1, max(1, len(regs))) if (regs and rng.chance(0.12)) else 0}
 
     def gen_ops(self, rng, config, prop):
         ops = []
@@ -130,13 +139,20 @@ class MuxWorld(World):
         from amaranth_soc import csr
         dw, aw = config["dw"], config["aw"]
         hwseed = config["hwseed"]
-        mm, placed, skipped = build_map(config)
-        dut = hw.construct(csr.Multiplexer, mm, shadow_overlaps=config["ov"])
+        made = []
+        mm, placed, skipped = build_map(
+            config, lambda m_: made.append(hw.construct(csr.Multiplexer, m_,
+                                                        shadow_overlaps=config["ov"])))
+        dut = made[0]
         duts = [(dut, placed)]
+        if config.get("late"):
+            stats.fault("registers_added_after_multiplexer_was_constructed")
         differential = "C05" in props
         if differential:
-            mm2, placed2, _ = build_map(config)
-            dut2 = hw.construct(csr.Multiplexer, mm2, shadow_overlaps=config["ov2"])
+            mm2, placed2, _ = build_map(
+                config, lambda m_: made.append(hw.construct(csr.Multiplexer, m_,
+                                                            shadow_overlaps=config["ov2"])))
+            dut2 = made[1]
             duts.append((dut2, placed2))
         sim = hw.build_sim(hw.make_top(*[d for d, _ in duts]))
 
@@ -326,6 +342,8 @@ class MuxWorld(World):
                     op = dict(op, reg=r - 1 if r > j else r)
                 o.append(op)
             yield c, o
+        if config.get("late"):
+            yield dict(config, late=0), ops
         if config["ov"] is not None:
             yield dict(config, ov=None), ops
         if config["al"]:
